@@ -19,12 +19,12 @@ TRUSTED = CC.TRUSTED_COMMON + [
 ]
 ASSUMPTIONS = [
     "WFHist (the quantifier's restriction), enforced by the generator: pointer records have an owner name spelled exactly as a browsed type "
-    "and class IN; the browsed types (_x._tcp.local., _y._udp.local.) are not nested; one datagram never carries two spellings of one "
+    "and class IN; the browsed types (_x._tcp.local., _y._udp.local., _Zed._tcp.local. -- the last one with an upper-case letter) are not nested; one datagram never carries two spellings of one "
     "instance name; a browser is only created when no expired-but-unpurged pointer record of its types is cached (a purge is issued first)",
     "instance names are specific to their type, and SRV/TXT/address owner names have one spelling (keeps callback order independent of set iteration order)",
 ]
 
-TX, TY = CC.TX, CC.TY
+TX, TY, TZ = CC.TX, CC.TY, CC.TZ
 IN = 1
 VOCAB = [
     ["p", TX, 12, IN, "a._x._tcp.local."],
@@ -41,8 +41,16 @@ VOCAB = [
     ["a", "h.local.", 1, IN, "0a000002"],
     ["a", "g.local.", 1, IN, "0a000003"],
     ["a", "h.local.", 28, IN, CC.FE80_1],
+    # a browsed type and instance names spelled with upper-case letters (owner name exactly the browsed type, every
+    # owner name in one spelling, the instance re-cased only across datagrams): still inside WFHist
+    ["p", TZ, 12, IN, "D._Zed._tcp.local."],
+    ["p", TZ, 12, IN, "d._zed._TCP.local."],
+    ["p", TZ, 12, IN, "E._Zed._tcp.local."],
+    ["s", "D._Zed._tcp.local.", 33, IN, 0, 0, 83, "Host.LOCAL."],
+    ["t", "D._Zed._tcp.local.", 16, IN, "03613d33"],
+    ["a", "Host.LOCAL.", 1, IN, "0a000004"],
 ]
-BROWSER_TYPES = [[TX], [TY], [TX, TY], [TY, TX]]
+BROWSER_TYPES = [[TX], [TY], [TX, TY], [TY, TX], [TZ], [TZ, TX], [TY, TZ]]
 
 
 # ------------------------------------------------------------------------------------------
@@ -227,15 +235,22 @@ def _d(*rs):
 EXH_ACTIONS = [_d((_P, 120, 0)), _d((_P, 0, 0)), _d((_P, 4500, 0), (_P, 0, 0)), _d((_P, 0, 0), (_P, 120, 0)), _d((_PC, 1, 0), (_PC, 1, 0)),
                _d((_PB, 120, 1)), _d((_S, 120, 0), (_A, 120, 0)), ("X", None), ("BA2", None), ("BR1", None)]
 EXH_GAPS = [0, 1001, 1125000]
+# the same kind of plan behind a browser on the upper-case type
+_PZ, _PZC, _SZ, _AZ = VOCAB[14], VOCAB[15], VOCAB[17], VOCAB[19]
+EXH_ACTIONS_Z = [_d((_PZ, 120, 0)), _d((_PZ, 0, 0)), _d((_PZ, 4500, 0), (_PZ, 4500, 0)), _d((_PZC, 1, 0)), _d((_PZC, 0, 0)),
+                 _d((_SZ, 120, 0), (_AZ, 120, 0)), ("X", None), ("BA2", None)]
+EXH_GAPS_Z = [0, 1001, 1125000]
 
 
-def exh_histories(actions, gaps, depth):
-    """browser 1 on [_x._tcp.local.] from the start; all op sequences of length <= depth"""
+def exh_histories(actions, gaps, depth, t1=None, t2=None):
+    """browser 1 on `t1` (default [_x._tcp.local.]) from the start; all op sequences of length <= depth"""
+    t1 = t1 or [TX]
+    t2 = t2 or [TX, TY]
     for n in range(1, depth + 1):
         for acts in itertools.product(range(len(actions)), repeat=n):
             for gs in itertools.product(gaps, repeat=n - 1):
                 now = CC.T0
-                ops = [["BA", 1, now, [TX]]]
+                ops = [["BA", 1, now, list(t1)]]
                 for j, a in enumerate(acts):
                     if j:
                         now += gs[j - 1]
@@ -244,7 +259,7 @@ def exh_histories(actions, gaps, depth):
                         ops.append(["X", now])
                     elif kind == "BA2":
                         ops.append(["X", now])       # WFHist: no expired-unpurged pointer at creation
-                        ops.append(["BA", 2, now, [TX, TY]])
+                        ops.append(["BA", 2, now, list(t2)])
                     elif kind == "BR1":
                         ops.append(["BR", 1])
                     else:
@@ -260,19 +275,20 @@ def run(ctx):
     n_random = C.Budget(tier, 700, 6000).n * wide
     deadline = t0 + (420 if tier == "thorough" else 34) * (2.5 if wide > 1 else 1)
     run_ = CC.Runner(res, "C04", ctx, oracle, valid=well_formed)
-    probes = CC.vocab_probes(VOCAB, [TX, TY])
+    probes = CC.vocab_probes(VOCAB, [TX, TY, TZ])
 
     for name, pr, ops, oracle_on in CC.corpus_histories("C04"):
         run_.add("corpus", pr, ops, oracle_on=oracle_on)
         res.count("corpus-files")
 
-    plans = [(EXH_ACTIONS, EXH_GAPS, 3)]
+    plans = [(EXH_ACTIONS_Z, EXH_GAPS_Z, 3, [TZ], [TZ, TY]), (EXH_ACTIONS, EXH_GAPS, 3, [TX], [TX, TY])]
     if tier == "thorough":
-        plans = [(EXH_ACTIONS, EXH_GAPS + [999, 1000], 3), (EXH_ACTIONS[:8], [0, 1125000], 4)]
+        plans = [(EXH_ACTIONS_Z, EXH_GAPS_Z + [999, 1000], 3, [TZ], [TZ, TY]), (EXH_ACTIONS, EXH_GAPS + [999, 1000], 3, [TX], [TX, TY]),
+                 (EXH_ACTIONS[:8], [0, 1125000], 4, [TX], [TX, TY])]
     complete = True
     n_exh = 0
-    for actions, gaps, depth in plans:
-        for ops in exh_histories(actions, gaps, depth):
+    for actions, gaps, depth, t1, t2 in plans:
+        for ops in exh_histories(actions, gaps, depth, t1, t2):
             run_.add("exhaustive", probes, ops, last_only=False)
             n_exh += 1
             if n_exh % 500 == 0 and time.time() > deadline - (150 if tier == "thorough" else 12):
@@ -284,7 +300,7 @@ def run(ctx):
     res.exhaustive = complete
 
     # outside the quantifier: model correspondence only (exercises the Added > Removed > Updated precedence, which WFHist makes unreachable)
-    probes_w = CC.vocab_probes(VOCAB_WILD, [TX, TY])
+    probes_w = CC.vocab_probes(VOCAB_WILD, [TX, TY, TZ])
     rng = C.rng_for(seed, "c04", "wild")
     for h in range(max(1, n_random // 4)):
         run_.add("outside-wfhist", probes_w, gen_history(rng, rng.choice([6, 12, 25, 40]), wf=False), oracle_on=False)
@@ -303,7 +319,7 @@ def run(ctx):
                 "_ServiceBrowserBase objects behind the real RecordManager; after it: Added/Removed alternate per (browser, type, lower instance), "
                 "{Added, not Removed} == pointer records of entries_with_name(type), lookups and a cache snapshot from inside the callbacks; callbacks "
                 "and readers also diffed against the Lean model. Streams: corpus; every history of the bounded plans %s behind a browser on "
-                "_x._tcp.local. (%d histories, %s); %d seeded random histories of depth 6-60 over %d templates with up to 3 browsers over 1-2 types. "
+                "_Zed._tcp.local. (a type with an upper-case letter) resp. _x._tcp.local. (%d histories, %s); %d seeded random histories of depth 6-60 over %d templates with up to 3 browsers over 1-2 types. "
                 "plus %d histories outside WFHist (second class, re-cased owner, two spellings per datagram, no purge before creation) compared with the model only. "
                 "non-trivial = distinct (records, gap class, callbacks fired, browsers active) per datagram / purge / creation"
                 % ([(len(p[0]), len(p[1]), p[2]) for p in plans], n_exh, "complete" if complete else "cut short", done, len(VOCAB), max(1, n_random // 4)))
